@@ -32,11 +32,19 @@ CLS = 'HyperLogLogWCache'
 def run(repo, chk, tier):
     init = repo.func(MOD, f'{CLS}.__init__')
     add = repo.func(MOD, f'{CLS}.add')
-    upd = repo.func(MOD, f'{CLS}._hasher_update')
     ln = repo.func(MOD, f'{CLS}.__len__')
+    # the register-update method: by name, else by what it does (the method that stores into self.M[...])
+    m = repo.mod(MOD)
+    upd = m.funcs.get(f'{CLS}._hasher_update')
+    if upd is None:
+        cands = [f for q, f in m.funcs.items() if q.startswith(CLS + '.') and f.name not in ('__init__', 'add', '__len__') and any(isinstance(n, ast.Assign) and isinstance(n.targets[0], ast.Subscript) and _is_self_attr(n.targets[0].value, 'M') for n in own_nodes(f.node))]
+        if len(cands) != 1:
+            from ..model import AnalysisError
+            raise AnalysisError(f'anchor: the register-update method of {CLS} (name _hasher_update, or the one method that stores into self.M[...]) was not found')
+        upd = cands[0]
     consts = init_constants(init)
     constants(chk, init, consts)
-    typestate(chk, add, consts)
+    typestate(chk, add, consts, upd)
     register_update(chk, upd, consts)
     estimator(chk, ln, consts)
 
@@ -90,9 +98,11 @@ def _is_self_attr(e, attr=None):
 
 
 class AddInterp:
-    def __init__(self, fn, consts):
+    def __init__(self, fn, consts, upd=None):
         self.fn, self.c = fn, consts
         self.value = [p for p in fn.params if p != 'self'][0]
+        self.upd_names = {'_hasher_update'} | ({upd.name} if upd is not None else set())
+        self.derived = {}      # local name -> text of the expression it was computed from
 
     def cond(self, e, st):
         if isinstance(e, ast.UnaryOp) and isinstance(e.op, ast.Not):
@@ -102,9 +112,13 @@ class AddInterp:
             return all(vals) if isinstance(e.op, ast.And) else any(vals)
         if _is_self_attr(e, 'hll_flag'):
             return st.flag
+        if isinstance(e, ast.Constant) and isinstance(e.value, bool):
+            return e.value
         if isinstance(e, ast.Compare) and len(e.ops) == 1:
             l, op, r = e.left, e.ops[0], e.comparators[0]
-            if isinstance(op, (ast.In, ast.NotIn)) and isinstance(l, ast.Name) and l.id == self.value and _is_self_attr(r, 'warmup_set'):
+            if isinstance(op, (ast.In, ast.NotIn)) and isinstance(l, ast.Name) and (l.id == self.value or l.id in self.derived) and _is_self_attr(r, 'warmup_set'):
+                if l.id != self.value:
+                    st.effects.append(('member_test_on', l.id))
                 return st.member if isinstance(op, ast.In) else not st.member
             if isinstance(op, (ast.Is, ast.Eq, ast.IsNot, ast.NotEq)) and _is_self_attr(l, 'hll_flag') and isinstance(r, ast.Constant) and isinstance(r.value, bool):
                 v = st.flag == r.value
@@ -182,7 +196,7 @@ class AddInterp:
                         st.size = '?'
                     st.member = True
                 return
-            if isinstance(f, ast.Attribute) and f.attr == '_hasher_update' and isinstance(f.value, ast.Name) and f.value.id == 'self' and len(c.args) == 1:
+            if isinstance(f, ast.Attribute) and f.attr in self.upd_names and isinstance(f.value, ast.Name) and f.value.id == 'self' and len(c.args) == 1:
                 a = c.args[0]
                 st.effects.append(('update', a.id if isinstance(a, ast.Name) else ast.unparse(a)))
                 return
@@ -209,24 +223,33 @@ class AddInterp:
                     return
             raise Inconclusive(f'unrecognised assignment in add(): {ast.unparse(s)}')
         if isinstance(s, ast.For) and _is_self_attr(s.iter, 'warmup_set') and isinstance(s.target, ast.Name):
-            ok = len(s.body) == 1 and isinstance(s.body[0], ast.Expr) and isinstance(s.body[0].value, ast.Call)
+            body = [b for b in s.body if not isinstance(b, ast.Pass)]
+            ok = len(body) == 1 and isinstance(body[0], ast.Expr) and isinstance(body[0].value, ast.Call)
             if ok:
-                c = s.body[0].value
-                ok = isinstance(c.func, ast.Attribute) and c.func.attr == '_hasher_update' and len(c.args) == 1 and isinstance(c.args[0], ast.Name) and c.args[0].id == s.target.id
+                c = body[0].value
+                ok = isinstance(c.func, ast.Attribute) and c.func.attr in self.upd_names and len(c.args) == 1 and isinstance(c.args[0], ast.Name) and c.args[0].id == s.target.id
             if ok:
                 st.effects.append(('transfer',))
                 return
+            if not body:
+                return      # a loop over the warm-up set that transfers nothing: the missing transfer is reported by the obligations
             raise Inconclusive(f'unrecognised loop over the warm-up set in add(): {ast.unparse(s)[:80]}')
+        if isinstance(s, ast.Assign) and len(s.targets) == 1 and isinstance(s.targets[0], ast.Name) and s.targets[0].id != self.value:
+            # a local computed from the value (e.g. a digest)
+            self.derived[s.targets[0].id] = ast.unparse(s.value)
+            return
         raise Inconclusive(f'unrecognised statement in add(): {ast.unparse(s)[:80]}')
 
 
-def typestate(chk, add, consts):
+def typestate(chk, add, consts, upd=None):
     if 'warmup_size' not in consts:
         chk.unsure('C14.2', 'R18', add.site(), 'add', 'capacity constant unknown')
         return
     states = [St(False, 'lt', True), St(False, 'lt', False), St(False, 'eq', True), St(False, 'eq', False), St(True, 'lt', False)]
-    interp = AddInterp(add, consts)
+    interp = AddInterp(add, consts, upd)
     v = interp.value
+    vdefs = [n for n in own_nodes(add.node) if isinstance(n, (ast.Assign, ast.AugAssign)) and any(isinstance(t, ast.Name) and t.id == v for t in (n.targets if isinstance(n, ast.Assign) else [n.target]))]
+    chk.expect(not vdefs, 'C14.2g', 'origin', add.site(vdefs[0]) if vdefs else add.site(), ast.unparse(vdefs[0]) if vdefs else f'parameter {v} is not re-bound', 'the value recorded is the value passed in', f'add() re-binds its parameter `{v}` before recording it')
     for st in states:
         name = repr(st)
         pre_flag = st.flag
@@ -235,7 +258,7 @@ def typestate(chk, add, consts):
         except Inconclusive as e:
             chk.unsure('C14.2', 'R18', add.site(), name, str(e))
             continue
-        eff = st.effects
+        eff = [e for e in st.effects if e[0] != 'member_test_on']
         kinds = [e[0] for e in eff]
         desc = f'{name}: effects {eff}'
         if any(k == 'split-boundary' for k in kinds):
@@ -249,6 +272,10 @@ def typestate(chk, add, consts):
             chk.expect(not bad, 'C14.2a', 'R18', add.site(), desc, 're-adding a present value in the exact phase changes nothing',
                        f'in state {name} re-adding a value that is already in the warm-up set triggers a conversion or a register update: the estimate changes when a seen value is re-added')
         elif not pre_flag and st is states[1]:
+            derived_add = [e for e in eff if e[0] == 'set_add' and e[1] != v]
+            if derived_add:
+                chk.bad('C14.2c', 'R18', add.site(), desc, f'the warm-up set stores `{derived_add[0][1]}` (= {interp.derived.get(derived_add[0][1], "?")}) instead of the value itself: two distinct values with the same digest are merged, so the size is not exact while at most 2**18 distinct values have been seen')
+                continue
             good = ('set_add', v) in eff and not converted and not any(k == 'update' for k in kinds)
             chk.expect(good, 'C14.2c', 'R18', add.site(), desc, 'a new value below capacity is stored exactly, no conversion',
                        f'in state {name} the value must be added to the warm-up set and nothing else (no early conversion, no loss)')
@@ -282,12 +309,35 @@ def register_update(chk, upd, consts):
     resets = calls(upd, attr='reset')
     updates = calls(upd, attr='update')
     fresh = bool(ctor or resets) and bool(updates) and min(c.lineno for c in (ctor + resets)) <= min(c.lineno for c in updates)
+    if not ctor and not resets:
+        # hashing happens elsewhere (one-shot digest helper): every digest call must be a one-shot function of its argument
+        oneshot = [c for f in m.funcs.values() if f.cls is upd.cls for c in calls(f) if (m.dotted(c.func) or '').startswith('xxhash.') and (m.dotted(c.func) or '').endswith('digest')]
+        fresh = bool(oneshot)
+        for c in oneshot:
+            chk.expect('xxh32' in m.dotted(c.func), 'C14.3b', 'R8', upd.site(c), ast.unparse(c)[:80], '32-bit digest, as the rank width assumes', 'the rank computation assumes a 32-bit digest')
     chk.expect(fresh, 'C14.3a', 'R1', upd.site(), 'hasher constructed / reset before update', 'every value is hashed by a fresh hasher (hash of a value does not depend on earlier values)',
                'the hasher is not re-initialised per value: the digest depends on all earlier values, so re-adding a value touches new registers')
     if ctor:
         d = m.dotted(ctor[0].func)
         chk.expect(d == 'xxhash.xxh32', 'C14.3b', 'R8', upd.site(ctor[0]), ast.unparse(ctor[0]), '32-bit digest, as the rank width assumes',
                    f'the rank computation (width - bit_length(x >> p)) assumes a 32-bit digest; {d} is used')
+    # every digest computed anywhere in the class uses the same algorithm and the same seed
+    sigs = {}
+    for f in m.funcs.values():
+        if f.cls is not upd.cls:
+            continue
+        for c in calls(f):
+            d = m.dotted(c.func) or ''
+            if d.startswith('xxhash.'):
+                algo = d.split('.')[1].split('_')[0]
+                seed = next((ast.unparse(k.value) for k in c.keywords if k.arg == 'seed'), None)
+                sigs.setdefault((algo, seed), []).append((f, c))
+    if len(sigs) > 1:
+        (a1, s1), (a2, s2) = list(sigs)[:2]
+        f2, c2 = sigs[(a2, s2)][0]
+        chk.bad('C14.3f', 'R6', f2.site(c2), ast.unparse(c2)[:100], f'values are hashed with ({a1}, seed={s1}) on one path and ({a2}, seed={s2}) on another: the same value lands in different registers depending on the path (e.g. conversion of the warm-up set vs later add), so re-adding a seen value changes the estimate')
+    else:
+        chk.ok('C14.3f', 'R6', upd.site(), f'hash signature(s): {list(sigs)}', 'one hash function and seed for every digest in the sketch', inspected=sum(len(v) for v in sigs.values()))
     # digest variable: x = self.hasher.intdigest()
     stores = [s for s in own_nodes(upd.node) if isinstance(s, ast.Assign) and isinstance(s.targets[0], ast.Subscript) and _is_self_attr(s.targets[0].value, 'M')]
     if len(stores) != 1:
@@ -295,11 +345,14 @@ def register_update(chk, upd, consts):
         return
     st = stores[0]
     bound = {}
-    digest = [s for s in own_nodes(upd.node) if isinstance(s, ast.Assign) and isinstance(s.targets[0], ast.Name) and isinstance(s.value, ast.Call) and isinstance(s.value.func, ast.Attribute) and s.value.func.attr == 'intdigest']
-    if len(digest) != 1:
+    digest = [s for s in own_nodes(upd.node) if isinstance(s, ast.Assign) and isinstance(s.targets[0], ast.Name) and isinstance(s.value, ast.Call) and isinstance(s.value.func, ast.Attribute) and s.value.func.attr.endswith('intdigest')]
+    if len(digest) == 1:
+        bound[digest[0].targets[0].id] = ('role', 'x')
+    elif not digest and not ctor:
+        bound[value] = ('role', 'x')      # the method receives the digest itself
+    else:
         chk.unsure('C14.3c', 'R15', upd.site(), 'x = hasher.intdigest()', 'digest binding not found')
         return
-    bound[digest[0].targets[0].id] = ('role', 'x')
     idx = term_of(upd, st.targets[0].slice, bound)
     val = term_of(upd, st.value, bound)
     E = lambda src: expected_term(m, src, {'x': ('role', 'x')})
